@@ -1,5 +1,5 @@
-/* C12 -- stream layer: check_stream_header, stream_step (+ event_size_at_offset,
- * stream_evclock) and emu_ev on the real stream.c / emu_ev.c; the event-size
+/* C12 -- stream layer: stream_step (+ event_size_at_offset, stream_evclock) and
+ * emu_ev on the real stream.c / emu_ev.c; the event-size
  * helpers they call (ovni_ev_size, ovni_payload_size, ovni_ev_get_clock) are the
  * real ones of src/rt/ovni.c, included textually as well. */
 #include "rt_common.h"     /* prelude + symbolic capacity needed to include ovni.c */
@@ -18,17 +18,29 @@ _Static_assert(sizeof(struct ovni_stream_header) == 8, "stream header is 8 bytes
  * data follow the header.  Integers little endian (x86-64).
  * ------------------------------------------------------------------------ */
 #define SP_HDR 12L
+/* The bytes are read through the public struct of ovni.h (so that CBMC shares the
+ * array reads with the code: the number of distinct symbolic-index reads drives
+ * the solver time quadratically); the layout the document gives is pinned here. */
+_Static_assert(offsetof(struct ovni_ev, header.flags) == 0 && offsetof(struct ovni_ev, header.model) == 1 &&
+	offsetof(struct ovni_ev, header.category) == 2 && offsetof(struct ovni_ev, header.value) == 3 &&
+	offsetof(struct ovni_ev, header.clock) == 4 && sizeof(((struct ovni_ev *) 0)->header.clock) == 8 &&
+	offsetof(struct ovni_ev, payload) == 12 && offsetof(struct ovni_ev, payload.jumbo.size) == 12 &&
+	sizeof(((struct ovni_ev *) 0)->payload.jumbo.size) == 4 && offsetof(struct ovni_ev, payload.jumbo.data) == 16,
+	"event layout of trace_spec.md");
+#define SP_EV(b, o) ((const struct ovni_ev *) ((b) + (o)))
+#define SP_FLAGS(b, o) (SP_EV(b, o)->header.flags)
+#define SP_JSIZE(b, o) ((long) SP_EV(b, o)->payload.jumbo.size)   /* u32, 0 .. 2^32-1 */
+#define SP_CLOCK(b, o) (SP_EV(b, o)->header.clock)                  /* u64 */
 #define SP_LE32(b, o) ((unsigned long) (b)[(o)] | ((unsigned long) (b)[(o) + 1] << 8) | \
 		((unsigned long) (b)[(o) + 2] << 16) | ((unsigned long) (b)[(o) + 3] << 24))
-#define SP_LE64(b, o) (SP_LE32(b, o) | (SP_LE32(b, (o) + 4) << 32))
-#define SP_JUMBO(b, o) (((b)[(o)] & 0x10) != 0)
-#define SP_NIB(b, o) ((long) ((b)[(o)] & 0x0f))
+#define SP_JUMBO(b, o) ((SP_FLAGS(b, o) & 0x10) != 0)
+#define SP_NIB(b, o) ((long) (SP_FLAGS(b, o) & 0x0f))
 
 /* payload size of the event at offset o; the caller guarantees the bytes read exist */
 static inline long sp_payload(const uint8_t *b, long o)
 {
 	if (SP_JUMBO(b, o))
-		return 4L + (long) SP_LE32(b, o + 12);
+		return 4L + SP_JSIZE(b, o);
 	return SP_NIB(b, o) == 0 ? 0L : SP_NIB(b, o) + 1L;
 }
 
@@ -42,49 +54,10 @@ static inline int sp_fits(const uint8_t *b, long o, long size)
 	if (SP_JUMBO(b, o)) {
 		if (avail < SP_HDR + 4)
 			return 0;                      /* jumbo size field cut */
-		long total = SP_HDR + 4L + (long) SP_LE32(b, o + 12);
+		long total = SP_HDR + 4L + SP_JSIZE(b, o);
 		return total <= avail && total <= 0x7fffffffL;
 	}
 	return SP_HDR + sp_payload(b, o) <= avail;
-}
-
-/* ======================= check_stream_header ======================= */
-long w_size;
-unsigned w_version;
-unsigned char w_magic0, w_magic1, w_magic2, w_magic3;
-WITNESS(check_stream_header);
-
-#define SP_HEADER_OK(s) ((s)->size >= 8 && \
-	(s)->buf[0] == 'o' && (s)->buf[1] == 'v' && (s)->buf[2] == 'n' && (s)->buf[3] == 'i' && \
-	SP_LE32((s)->buf, 4) == 1UL)
-
-int c_check_stream_header(struct stream *stream)
-__CPROVER_requires(__CPROVER_is_fresh(stream, sizeof(*stream)))
-__CPROVER_requires(stream->size >= 0 && stream->size <= (1L << 40))
-__CPROVER_requires(stream->size == 0 || __CPROVER_is_fresh(stream->buf, stream->size))
-__CPROVER_requires(DIAG_PRE)
-__CPROVER_requires(WBIND(check_stream_header, w_size == stream->size && (stream->size < 8 || (
-	w_magic0 == stream->buf[0] && w_magic1 == stream->buf[1] &&
-	w_magic2 == stream->buf[2] && w_magic3 == stream->buf[3] &&
-	w_version == (unsigned) SP_LE32(stream->buf, 4)))))
-__CPROVER_assigns(DIAG_FRAME)
-/* accepted exactly when the header is complete, has the magic and version 1 */
-__CPROVER_ensures((__CPROVER_return_value == 0) == SP_HEADER_OK(stream))
-__CPROVER_ensures(__CPROVER_return_value == 0 || __CPROVER_return_value == -1)
-__CPROVER_ensures(__CPROVER_return_value == 0 || g_err > __CPROVER_old(g_err))
-;
-
-void h_check_stream_header(void)
-{
-	struct stream *s;
-	WITNESS_ON(check_stream_header);
-	int r = check_stream_header(s);
-	if (r == 0) REACH("header accepted");
-	if (r == 0 && w_size == 8) REACH("header-only stream accepted");
-	if (r != 0 && w_size < 8) REACH("incomplete header refused");
-	if (r != 0 && w_size >= 8 && w_version == 1) REACH("wrong magic refused");
-	if (r != 0 && w_size >= 8 && w_version != 1 && w_magic0 == 'o' && w_magic1 == 'v' && w_magic2 == 'n' && w_magic3 == 'i')
-		REACH("wrong version refused");
 }
 
 /* ============================ stream_step ============================ */
@@ -92,49 +65,77 @@ void h_check_stream_header(void)
  * a loaded event is the one at the cursor and lies completely inside the buffer
  * (established by load_obs: cur_ev NULL, offset 8; preserved by stream_step). */
 #define STREAM_MAXSIZE (1L << 40)
-#define STREAM_SHAPE(s) ( \
-	__CPROVER_is_fresh(s, sizeof(*(s))) && \
-	(s)->size >= 8 && (s)->size <= STREAM_MAXSIZE && \
-	__CPROVER_is_fresh((s)->buf, (s)->size) && \
-	(s)->offset >= 0 && (s)->offset <= (s)->size && \
-	((s)->cur_ev == NULL || \
+/* CBMC checks a member access p->payload.x against the whole 16-byte union
+ * `payload`, although only x is read.  A jumbo event with less than 12 bytes of
+ * data that ends the buffer (event < 28 bytes, nothing behind it) therefore
+ * raises a spurious "outside object bounds" on the 4-byte read of its size
+ * field.  Group stream_step proves the contract on a buffer object of EXACTLY
+ * stream->size bytes for every input except those (SHORT_TAIL_JUMBO); group
+ * stream_step_tail proves the same contract for EVERY input on an object with 12
+ * more bytes behind stream->size (bytes the union-wide check wants). */
+#ifndef C12_SLACK
+#define C12_SLACK 0
+#endif
+#define SHORT_TAIL_JUMBO(b, o, size) ((size) - (o) >= 12 && (size) - (o) < 28 && SP_JUMBO(b, o))
+/* (one clause per is_fresh: a single conjunction holding both is 20x slower) */
+#define REQ_STREAM_SHAPE(s) \
+	__CPROVER_requires(__CPROVER_is_fresh(s, sizeof(*(s)))) \
+	__CPROVER_requires((s)->size >= 8 && (s)->size <= STREAM_MAXSIZE) \
+	__CPROVER_requires(__CPROVER_is_fresh((s)->buf, (s)->size + C12_SLACK)) \
+	__CPROVER_requires((s)->offset >= 0 && (s)->offset <= (s)->size) \
+	__CPROVER_requires(C12_SLACK > 0 || (s)->cur_ev == NULL || !SHORT_TAIL_JUMBO((s)->buf, (s)->offset, (s)->size)) \
+	__CPROVER_requires((s)->cur_ev == NULL || \
 		(__CPROVER_pointer_equals((s)->cur_ev, (struct ovni_ev *) ((s)->buf + (s)->offset)) && \
-		 sp_fits((s)->buf, (s)->offset, (s)->size))))
+		 sp_fits((s)->buf, (s)->offset, (s)->size)))
 
 /* pre-state ghosts (enforce-only contract) */
-int g_active, g_had, g_end, g_fits, g_back, g_unsorted;
+long w_size, w_clkoff, w_last;
+unsigned long w_rawclk;
+int w_unsorted;
+int g_active, g_had, g_end, g_fits, g_back, g_unsorted, g_njumbo;
 long g_noff;               /* offset of the event the step moves to */
 long g_clk;                /* its corrected clock */
 unsigned long g_rawclk;    /* its clock as stored in the file */
 long g_last, g_off0, g_clkoff;
 WITNESS(stream_step);
 
-/* Carve-out (see final report / finding): stream_evclock computes
- * (int64_t) clock + clock_offset in signed arithmetic on file-controlled values.
- * The proved contract covers the inputs on which that sum and the delta do not
- * overflow; the twin group stream_step_anyclock shows the overflow. */
+/* Carve-out = exactly the inputs on which the code has undefined behaviour:
+ * stream_evclock computes (int64_t) clock + clock_offset in signed arithmetic on
+ * two file-controlled values (event clock: any u64 of stream.obs; offset: median
+ * of the clock offset table), and stream_step then clock - lastclock.  The proved
+ * contract covers every input on which neither overflows; the twin group
+ * stream_step_anyclock (-DC12_ANYCLOCK) has no such clause and shows the overflow. */
+#define I64_MAX 0x7fffffffffffffffL
+#define I64_MIN (-I64_MAX - 1L)
+#define ADD_OVF(a, b) (((b) > 0 && (a) > I64_MAX - (b)) || ((b) < 0 && (a) < I64_MIN - (b)))
+#define SUB_OVF(a, b) (((b) < 0 && (a) > I64_MAX + (b)) || ((b) > 0 && (a) < I64_MIN + (b)))
+#define CLOCK_SUM_OVF(s) (g_rawclk > (unsigned long) I64_MAX || ADD_OVF((long) g_rawclk, (s)->clock_offset))
 #ifndef C12_ANYCLOCK
-#define CLOCK_CARVE_OUT(s) ( \
-	(s)->clock_offset > -(1L << 60) && (s)->clock_offset < (1L << 60) && \
-	(s)->lastclock > -(1L << 60) && (s)->lastclock < (1L << 61) + (1L << 60) && \
-	(!g_fits || g_rawclk < (1UL << 61)))
+#define CLOCK_SUM_DEFINED(s)   (!g_fits || (g_rawclk <= (unsigned long) I64_MAX && !ADD_OVF((long) g_rawclk, (s)->clock_offset)))
+#define CLOCK_DELTA_DEFINED(s) (!g_fits || g_back || !SUB_OVF(g_clk, (s)->lastclock))
 #else
-#define CLOCK_CARVE_OUT(s) 1
+#define CLOCK_SUM_DEFINED(s) 1
+#define CLOCK_DELTA_DEFINED(s) 1
 #endif
 
 int c_stream_step(struct stream *stream)
-__CPROVER_requires(STREAM_SHAPE(stream) && DIAG_PRE)
+REQ_STREAM_SHAPE(stream)
+__CPROVER_requires(DIAG_PRE)
 __CPROVER_requires(g_active == (stream->active != 0) && g_had == (stream->cur_ev != NULL))
 __CPROVER_requires(g_unsorted == (stream->unsorted != 0))
 __CPROVER_requires(WBIND(stream_step, w_size == stream->size))
 __CPROVER_requires(g_off0 == stream->offset && g_last == stream->lastclock && g_clkoff == stream->clock_offset)
 __CPROVER_requires(g_noff == (g_had ? stream->offset + SP_HDR + sp_payload(stream->buf, stream->offset) : stream->offset))
 __CPROVER_requires(g_end == (g_had && g_noff == stream->size))
+__CPROVER_requires(C12_SLACK > 0 || !SHORT_TAIL_JUMBO(stream->buf, g_noff, stream->size))
 __CPROVER_requires(g_fits == sp_fits(stream->buf, g_noff, stream->size))
-__CPROVER_requires(!g_fits || g_rawclk == SP_LE64(stream->buf, g_noff + 4))
-__CPROVER_requires(CLOCK_CARVE_OUT(stream))
-__CPROVER_requires(!g_fits || g_clk == (long) g_rawclk + stream->clock_offset)
+__CPROVER_requires(g_njumbo == (stream->size - g_noff >= 12 && SP_JUMBO(stream->buf, g_noff)))
+__CPROVER_requires(!g_fits || g_rawclk == SP_CLOCK(stream->buf, g_noff))
+__CPROVER_requires(WBIND(stream_step, !g_fits || (w_rawclk == g_rawclk && w_clkoff == stream->clock_offset && w_last == stream->lastclock && w_unsorted == g_unsorted)))
+__CPROVER_requires(CLOCK_SUM_DEFINED(stream))
+__CPROVER_requires(!g_fits || CLOCK_SUM_OVF(stream) || g_clk == (long) g_rawclk + stream->clock_offset)
 __CPROVER_requires(g_back == (g_fits && !g_unsorted && g_clk < stream->lastclock))
+__CPROVER_requires(CLOCK_DELTA_DEFINED(stream))
 __CPROVER_assigns(stream->offset, stream->active, stream->cur_ev, stream->lastclock, stream->deltaclock, DIAG_FRAME)
 __CPROVER_ensures(__CPROVER_return_value == 0 || __CPROVER_return_value == -1 || __CPROVER_return_value == 1)
 /* an inactive stream cannot be stepped and is left alone */
@@ -151,9 +152,9 @@ __CPROVER_ensures(!(g_active && !g_end && g_back) || __CPROVER_return_value == -
 /* effect of an accepted step */
 __CPROVER_ensures(__CPROVER_return_value != 0 || (
 	stream->offset == g_noff && stream->cur_ev == (struct ovni_ev *) (stream->buf + g_noff) &&
-	stream->lastclock == g_clk && stream->deltaclock == g_clk - g_last && stream->active != 0 &&
+	stream->lastclock == g_clk && (SUB_OVF(g_clk, g_last) || stream->deltaclock == g_clk - g_last) && stream->active != 0 &&
 	(!g_had || (g_noff >= g_off0 + 12 && g_noff <= g_off0 + 0x7fffffffL)) && (g_had || g_noff == g_off0) &&
-	sp_fits(stream->buf, stream->offset, stream->size) &&
+	/* invariant kept: offset' == g_noff, g_fits, and buf is outside the frame */
 	(g_unsorted || stream->lastclock >= g_last)))
 /* a failure says why and never moves the clock */
 __CPROVER_ensures(__CPROVER_return_value != -1 || (g_err > __CPROVER_old(g_err) && stream->lastclock == g_last))
@@ -172,7 +173,64 @@ void h_stream_step(void)
 	if (r == 1) REACH("end of stream");
 	if (r == -1 && !g_active) REACH("inactive refused");
 	if (r == -1 && g_active && !g_fits && g_noff + 12 > w_size) REACH("cut header refused");
-	if (r == -1 && g_active && !g_fits && g_noff + 12 <= w_size && g_noff + 16 > w_size) REACH("cut jumbo size refused");
-	if (r == -1 && g_active && !g_fits && g_noff + 16 <= w_size) REACH("cut event body refused");
+	if (r == -1 && g_active && !g_fits && !g_njumbo && g_noff + 12 <= w_size) REACH("normal event with cut payload refused");
+	if (r == -1 && g_active && !g_fits && g_njumbo && g_noff + 28 <= w_size) REACH("jumbo event with cut data refused");
+#if C12_SLACK > 0
+	if (r == -1 && g_active && !g_fits && g_njumbo && g_noff + 16 > w_size) REACH("cut jumbo size field refused");
+	if (r == -1 && g_active && !g_fits && g_njumbo && g_noff + 16 <= w_size && g_noff + 28 > w_size) REACH("short trailing jumbo with cut data refused");
+	if (r == 0 && g_njumbo && g_noff + 28 > w_size) REACH("short trailing jumbo accepted");
+#endif
 	if (r == -1 && g_active && g_back) REACH("backwards clock refused");
+}
+
+/* =============================== emu_ev =============================== */
+/* The event is an object of exactly its own size (12 + payload), so any read
+ * past the event is a bounds violation; only a jumbo event shorter than 28 bytes
+ * gets a 28-byte object (CBMC's union-wide check, see SHORT_TAIL_JUMBO). *ev is
+ * arbitrary on entry -- in particular is_jumbo left over from the previous event. */
+unsigned long w_evobj;      /* size of the object holding the event */
+long g_psize;               /* payload size by the format specification */
+int g_jumbo;
+unsigned char w_flags;
+int w_old_is_jumbo;
+WITNESS(emu_ev);
+#define EVB(oev) ((const uint8_t *) (oev))
+
+void c_emu_ev(struct emu_ev *ev, const struct ovni_ev *oev, int64_t sclock, int64_t dclock)
+__CPROVER_requires(__CPROVER_is_fresh(ev, sizeof(*ev)))
+__CPROVER_requires(w_evobj >= 12 && w_evobj <= (1UL << 33))
+__CPROVER_requires(__CPROVER_is_fresh(oev, w_evobj))
+__CPROVER_requires(w_evobj >= 28 || !SP_JUMBO(EVB(oev), 0))
+__CPROVER_requires(sp_fits(EVB(oev), 0, (long) w_evobj))
+__CPROVER_requires(g_psize == sp_payload(EVB(oev), 0) && g_jumbo == SP_JUMBO(EVB(oev), 0))
+__CPROVER_requires(w_evobj == 12UL + (unsigned long) g_psize || (g_jumbo && g_psize < 16 && w_evobj == 28))
+/* (int64_t) of a u64 >= 2^63 is implementation-defined (flagged by CBMC's conversion check) */
+__CPROVER_requires(SP_CLOCK(EVB(oev), 0) <= (unsigned long) I64_MAX)
+__CPROVER_requires(WBIND(emu_ev, w_flags == SP_FLAGS(EVB(oev), 0) && w_old_is_jumbo == ev->is_jumbo))
+__CPROVER_assigns(ev->m, ev->c, ev->v, ev->mcv[3], ev->rclock, ev->sclock, ev->dclock,
+	ev->payload_size, ev->has_payload, ev->payload, ev->is_jumbo)
+/* model, category, value copied; mcv is a nil-terminated string of them */
+__CPROVER_ensures(ev->m == EVB(oev)[1] && ev->c == EVB(oev)[2] && ev->v == EVB(oev)[3])
+__CPROVER_ensures((ev->mcv[0] & 0xff) == EVB(oev)[1] && (ev->mcv[1] & 0xff) == EVB(oev)[2] && (ev->mcv[2] & 0xff) == EVB(oev)[3] && ev->mcv[3] == '\0')
+/* clocks */
+__CPROVER_ensures(ev->rclock == (long) SP_CLOCK(EVB(oev), 0) && ev->sclock == sclock && ev->dclock == dclock)
+/* payload shape decoded from THIS event only */
+__CPROVER_ensures(ev->payload_size == (size_t) g_psize)
+__CPROVER_ensures((ev->has_payload != 0) == (g_psize > 0) && (ev->has_payload == 0 || ev->has_payload == 1))
+__CPROVER_ensures((ev->payload == NULL) == (g_psize == 0))
+__CPROVER_ensures(g_psize == 0 || ev->payload == (const union ovni_ev_payload *) (EVB(oev) + 12))
+__CPROVER_ensures((ev->is_jumbo != 0) == (g_jumbo != 0) && (ev->is_jumbo == 0 || ev->is_jumbo == 1))
+;
+
+void h_emu_ev(void)
+{
+	struct emu_ev *ev; const struct ovni_ev *oev; int64_t sc, dc;
+	WITNESS_ON(emu_ev);
+	emu_ev(ev, oev, sc, dc);
+	if (g_psize == 0) REACH("event without payload");
+	if (g_psize == 0 && w_old_is_jumbo) REACH("no payload after a jumbo event");
+	if (g_psize > 0 && !g_jumbo && w_old_is_jumbo) REACH("normal event with payload after a jumbo event");
+	if (g_psize == 16 && !g_jumbo) REACH("normal event with 16 bytes of payload");
+	if (g_jumbo && !w_old_is_jumbo && g_psize > 1000) REACH("large jumbo event after a normal one");
+	if (g_jumbo && g_psize == 4) REACH("jumbo event without data");
 }
